@@ -47,8 +47,7 @@ theorem normOut_spec {bits b : Nat} {H : Int} (hbits : bits = 64 ∨ bits = 128)
     (normOut bits b rs l).length = rs ∧ (∀ d ∈ normOut bits b rs l, Balanced b d) ∧
     TorusNear (valI b (normOut bits b rs l)) (b * rs) (valI b l) (b * l.length) ∧
     (l.length ≤ rs → TorusEq (valI b (normOut bits b rs l)) (b * rs) (valI b l) (b * l.length)) := by
-  have hng : -(splitOffset b 0).2 ≤ (rs : Int) := by rw [splitOffset_zero]; simp
-  have h := normalizeInterCoef_value hr rs 0 l hl hng
+  have h := normalizeInterCoef_value hr rs 0 l hl
   simp only [Int.toNat_zero, pow_zero, mul_one, neg_zero, Nat.add_zero, sub_zero] at h
   have hout : normOut bits b rs l = normalizeInterCoef bits b rs 0 l := by
     unfold normOut
